@@ -311,11 +311,7 @@ func mapOpField(ins ssa.Instruction) (string, bool) {
 	if m == nil {
 		return "", false
 	}
-	ld, ok := m.(*ssa.UnOp)
-	if !ok {
-		return "", false
-	}
-	n, f := core.FieldOf(ld.X)
+	n, f := core.MapFieldOrigin(m)
 	if n == nil {
 		return "", false
 	}
@@ -485,10 +481,8 @@ func singletonWrites(c *core.Ctx, lc core.LiveCone) (writes []fieldWrite, reads 
 						writes = append(writes, fieldWrite{qual(n) + "." + f.Name(), ins, fn})
 					}
 				case *ssa.MapUpdate:
-					if ld, ok := x.Map.(*ssa.UnOp); ok {
-						if n, f := core.FieldOf(ld.X); n != nil && singletonTypes[qual(n)] {
-							writes = append(writes, fieldWrite{qual(n) + "." + f.Name(), ins, fn})
-						}
+					if n, f := core.MapFieldOrigin(x.Map); n != nil && singletonTypes[qual(n)] {
+						writes = append(writes, fieldWrite{qual(n) + "." + f.Name(), ins, fn})
 					}
 				case *ssa.Call:
 					if bi, ok := x.Call.Value.(*ssa.Builtin); ok && (bi.Name() == "delete" || bi.Name() == "clear") && len(x.Call.Args) > 0 {
